@@ -224,13 +224,21 @@ ASSUME_PATTERNS = [r"\bassume\s*\(", r"\badmit\s*\(", r"external_body", r"assume
 
 def scan_assumptions(text):
     hits = []
-    for i, ln in enumerate(text.split("\n"), 1):
+    lines = text.split("\n")
+    for i, ln in enumerate(lines, 1):
         s = ln.strip()
         if s.startswith("//"):
             continue
         for pat in ASSUME_PATTERNS:
             if re.search(pat, s):
-                hits.append(s[:160])
+                if s.startswith("#[") and s.endswith("]"):
+                    # an attribute: name the item it is attached to (next non-attribute, non-comment line)
+                    j = i
+                    while j < len(lines) and (lines[j].strip().startswith("#[") or lines[j].strip().startswith("//") or not lines[j].strip()):
+                        j += 1
+                    nxt = lines[j].strip() if j < len(lines) else ""
+                    s = s + " " + nxt
+                hits.append(s[:200])
                 break
     # de-duplicate, keep order
     seen, out = set(), []
